@@ -28,6 +28,18 @@ ATOM_KINDS = ('int', 'float', 'str', 'bool', 'enum')
 _CLS_COUNTER = [0]
 
 
+def arg_py(pg, a):
+  """A write argument: a plain value or ["typed", <src spec desc>, <allow_partial>, <content>] = an
+  already typed pg.List / pg.Dict bound to `src`."""
+  if a and a[0] == 'typed':
+    spec = tv.build(a[1])
+    content = tv.to_py(a[3])
+    if isinstance(content, list):
+      return pg.List(content, value_spec=spec, allow_partial=a[2])
+    return pg.Dict(content, value_spec=spec, allow_partial=a[2])
+  return tv.to_py(a)
+
+
 def run_list_op(pg, lst, op):
   k = op[0]
   if k == 'append':
@@ -48,8 +60,12 @@ def run_list_op(pg, lst, op):
     lst.remove(tv.to_py(op[1]))
   elif k == 'extend':
     lst.extend([tv.to_py(v) for v in op[1]])
+  elif k == 'extend_iter':
+    lst.extend(iter([tv.to_py(v) for v in op[1]]))
   elif k == 'iadd':
     lst += [tv.to_py(v) for v in op[1]]
+  elif k == 'iadd_iter':
+    lst += (tv.to_py(v) for v in op[1])
   elif k == 'imul':
     lst *= op[1]
   elif k == 'clear':
@@ -65,25 +81,37 @@ def run_list_op(pg, lst, op):
     raise ValueError(k)
 
 
+def prebuild(pg, op):
+  """The op with its write arguments converted to Python objects (typed containers are created
+  here, outside any allow_partial scope of the call itself)."""
+  k = op[0]
+  if k in ('setitem', 'setattr', 'setdefault'):
+    return [k, op[1], arg_py(pg, op[2])]
+  if k in ('update', 'ior', 'rebind'):
+    return [k, {kk: arg_py(pg, v) for kk, v in op[1]}]
+  return op
+
+
 def run_dict_op(pg, target, op, is_object):
+  """`op` comes from prebuild()."""
   k = op[0]
   if k == 'setitem':
-    target[op[1]] = tv.to_py(op[2])
+    target[op[1]] = op[2]
   elif k == 'setattr':
     with pg.allow_writable_accessors(True):
-      setattr(target, op[1], tv.to_py(op[2]))
+      setattr(target, op[1], op[2])
   elif k == 'delitem':
     del target[op[1]]
   elif k == 'pop':
     target.pop(op[1])
   elif k == 'setdefault':
-    target.setdefault(op[1], tv.to_py(op[2]))
+    target.setdefault(op[1], op[2])
   elif k == 'update':
-    target.update({kk: tv.to_py(v) for kk, v in op[1]})
+    target.update(op[1])
   elif k == 'ior':
-    target |= {kk: tv.to_py(v) for kk, v in op[1]}
+    target |= op[1]
   elif k == 'rebind':
-    target.rebind({kk: tv.to_py(v) for kk, v in op[1]}, raise_on_no_change=False)
+    target.rebind(op[1], raise_on_no_change=False)
   elif k == 'clear':
     target.clear()
   elif k == 'popitem':
@@ -196,6 +224,8 @@ class C03(Prop):
       elif k == 'remove':
         ops.append(['remove', copy.deepcopy(rng.choice(items)) if items and rng.chance(0.7) else val()])
       elif k in ('extend', 'iadd'):
+        if rng.chance(0.4):
+          k = k + '_iter'      # an unsized iterable (iterator / generator) as argument
         ops.append([k, [g.valid(elem) if rng.chance(0.8) else g.near_miss(elem) for _ in range(rng.randint(0, 3))]])
       elif k == 'imul':
         ops.append(['imul', rng.randint(-1, 2)])
@@ -223,7 +253,14 @@ class C03(Prop):
       names = rng.sample(['x', 'y', 'z', 'w'], rng.randint(1, 3))
       fields = []
       for nm in names:
-        fd = g.spec(rng.weighted([(3, 0), (2, 1)]))
+        fd = g.spec(rng.weighted([(3, 0), (3, 1)]))
+        if fd['k'] not in ('list', 'dict', 'union') and rng.chance(0.25):
+          inner = g.spec(1)
+          if inner['k'] in ('list', 'dict') and (inner['k'] != 'dict' or inner.get('fields')):
+            inner['n'] = 0
+            inner.pop('d', None)
+            inner.pop('fz', None)
+            fd = inner if rng.chance(0.5) else {'k': 'union', 'cands': [inner, {'k': 'str', 'rx': None, 'n': 0}], 'n': 0}
         if fd['k'] in ('list', 'tuple', 'dict', 'union'):
           # a noneable container field re-applies its (symbolic) default through CustomTyping,
           # which is outside the value-spec model
@@ -251,10 +288,48 @@ class C03(Prop):
           return f[1]
       return dyn[0][1] if dyn and key in dyn_names else None
 
+    def container_desc(fd):
+      if fd['k'] == 'list' or (fd['k'] == 'dict' and fd.get('fields')):
+        return fd
+      if fd['k'] == 'union':
+        cs = [c for c in fd['cands'] if c['k'] == 'list' or (c['k'] == 'dict' and c.get('fields'))]
+        return rng.choice(cs) if cs else None
+      return None
+
+    def typed_arg(fd):
+      """An already typed pg.List / pg.Dict bound to a spec related to the field's."""
+      import pyglove as pg
+      cd = container_desc(fd)
+      if cd is None:
+        return None
+      src = copy.deepcopy(cd)
+      for _ in range(rng.below(3)):
+        m = g.mutate(src)
+        if m['k'] == cd['k'] and (m['k'] != 'dict' or m.get('fields')):
+          src = m
+      src.pop('d', None)
+      src.pop('fz', None)
+      src['n'] = 0
+      sp = rng.chance(0.3)
+      content = g.valid(src)
+      if sp and content[0] == 'd' and content[1] and rng.chance(0.6):
+        content = ['d', content[1][1:]]
+      a = ['typed', src, sp, content]
+      try:
+        c = arg_py(pg, a)
+      except (TypeError, ValueError, KeyError):
+        return None
+      a[3] = tv.from_py(c)
+      return a
+
     def val(key):
       fd = field_of(key)
       if fd is None:
         return copy.deepcopy(rng.choice(tv.ATOMS[:10]))
+      if rng.chance(0.5):
+        a = typed_arg(fd)
+        if a is not None:
+          return a
       c = rng.below(20)
       if c < 11:
         return g.valid(fd)
@@ -339,8 +414,19 @@ class C03(Prop):
       st = tv.readback(tv.build(case['spec']))
     except (TypeError, ValueError, KeyError):
       return None
-    req = {'op': case['kind'], 'spec': st, 'items': case['items'], 'ops': case['ops'],
-           'env': tv.env_for([st], [v for v in self.all_values(case) if v and v[0] != 'd' or True][:0] + self.atom_values(case))}
+    states = [st]
+
+    def conv(x):
+      if isinstance(x, list):
+        if x and x[0] == 'typed':
+          sst = tv.readback(tv.build(x[1]))
+          states.append(sst)
+          return ['typed', sst, x[2], x[3]]
+        return [conv(y) for y in x]
+      return x
+    ops = conv(case['ops'])
+    req = {'op': case['kind'], 'spec': st, 'items': case['items'], 'ops': ops,
+           'env': tv.env_for(states, self.atom_values(case))}
     if case['kind'] != 'list':
       req['partial'] = case['partial']
     return req
@@ -429,9 +515,10 @@ class C03(Prop):
     for op, scope in case['ops']:
       err = None
       ctx = pg.allow_partial(scope) if scope is not None else contextlib.nullcontext()
+      pyop = prebuild(pg, op)
       try:
         with ctx:
-          run_dict_op(pg, target, op, is_object)
+          run_dict_op(pg, target, pyop, is_object)
       except (TypeError, ValueError, KeyError, IndexError) as e:
         err = type(e).__name__
       m['steps'].append({'err': err, 'items': content(target), 'conforms': conforms(target, True),
@@ -482,18 +569,41 @@ class C03(Prop):
           sig = ('size-out-of-bounds:' if size_bad else 'member-rejected-by-spec:') + op[0]
         else:
           sig = 'member-rejected-by-spec:%s:%s' % (kind, op[0])
+          t = self.typed_cause(case, op, s)
+          if t:
+            sig = 'typed-container-trusted:' + t
         return {'signature': sig, 'what': 'after %s the %s %s violates its spec %s' % (
             json.dumps(op), kind, json.dumps(s['items']), json.dumps(st))}
       if kind != 'list' and not partial_allowed and not s['complete']:
         return {'signature': 'required-field-missing:%s:%s' % (kind, op[0]),
                 'what': 'after %s (never partial) a required field is missing: %s' % (json.dumps(op), json.dumps(s['items']))}
       if s['err'] in SCHEMA_ERRS:
-        batch = op[0] in ('extend', 'iadd', 'imul', 'setslice', 'rebind', 'update', 'ior')
+        batch = op[0] in ('extend', 'iadd', 'extend_iter', 'iadd_iter', 'imul', 'setslice', 'rebind', 'update', 'ior')
         if not batch and s['items'] != prev:
           return {'signature': 'rejected-write-stored:%s:%s' % (kind, op[0]),
                   'what': '%s raised %s but the %s changed from %s to %s' % (
                       json.dumps(op), s['err'], kind, json.dumps(prev), json.dumps(s['items']))}
       prev = s['items']
+    return None
+
+  def typed_cause(self, case, op, step):
+    """If the violating member was written as an already typed container whose spec the field
+    declared compatible, the C04 class of that (unsound) compatibility verdict."""
+    from harness import c04
+    args = []
+    if op[0] in ('setitem', 'setattr', 'setdefault'):
+      args = [(op[1], op[2])]
+    elif op[0] in ('update', 'ior', 'rebind'):
+      args = [(k, v) for k, v in op[1]]
+    fields = {f[0][1]: f[1] for f in case['spec']['fields'] if f[0][0] == 'c'}
+    for k, a in args:
+      if a and a[0] == 'typed' and k in fields:
+        dst = tv.readback(tv.build(fields[k]))
+        src = tv.readback(tv.build(a[1]))
+        cands = [dst] + (dst[1] if dst[0] == 'union' else [])
+        for d in cands:
+          if d[0] == src[0]:
+            return c04.PROP.classify(d, src, a[3])
     return None
 
   def nontrivial(self, case, out):
